@@ -110,6 +110,10 @@ def configs(tier):
                     continue
                 out.append(dict(solver='GramCD', kind='t0' if warm else 'e2e', datafit='Quadratic', penalty=pen, X=X,
                                 max_iter=mi, greedy_cd=greedy, warm=warm, fit_intercept=False))
+    # GramCD with acceleration: tolerance stop right after an accepted extrapolation (contract stub fires in iteration 0)
+    for pen in (('L1',) if q else ('L1', 'WeightedL1', 'MCPenalty')):
+        out.append(dict(solver='GramCD', kind='acc', datafit='Quadratic', penalty=pen, X='tri22' if q else 'corr32', max_iter=2,
+                        max_iter_unpatched=14, acc_stub=1, use_acc=True, greedy_cd=False, warm=not q, fit_intercept=False))
     # ProxNewton
     pn = [('Quadratic', 'L1', 'corr32', None), ('Quadratic', 'L1_plus_L2', 'gen32', None),
           ('Logistic', 'L1', None, True), ('Logistic', 'WeightedL1', None, True),
@@ -152,7 +156,7 @@ def units(tier):
         if tier == 'quick' and slow(c):
             continue
         us.append(Unit('C01/D/%s[%s]' % (c['solver'], _cid(c)), u_cert, dict(cfg=c), wall_s=60 if tier == 'quick' else 240, max_paths=4000, timeout_ms=6000 if tier == 'quick' else 20000,
-                       patched=c['solver'] in ('ProxNewton', 'GroupProxNewton')))
+                       patched=c['solver'] in ('ProxNewton', 'GroupProxNewton') or bool(c.get('acc_stub'))))
     return us
 
 
